@@ -40,6 +40,9 @@ type COp struct {
 	Kind      string   `json:"kind"` // lookup | set | poll | read | advance | restart
 	Name      string   `json:"name,omitempty"`
 	Redeclare []string `json:"redeclare,omitempty"` // restart: declared set of the next process (nil = unchanged)
+	// restart: between Close and the end of the process the program looks Name up (Close stops the
+	// poller, nothing else): a value installed then is written to the cache like any other
+	AfterClose bool `json:"after_close,omitempty"`
 }
 
 type CacheHistCase struct {
@@ -241,6 +244,11 @@ func runC13Hist(t *testing.T, c CacheHistCase) (*h.Violation, h.Info) {
 		case "set":
 			nver[o.Name]++
 			svc.Set(o.Name, nver[o.Name], c13Value(o.Name, nver[o.Name]))
+		case "clockback":
+			// the machine's clock is set back (or the cache file travels to a machine whose clock is
+			// behind): the stamps in the cache are then in the future - a cache all the same
+			clock.Advance(-5000)
+			info.Class("clock-behind-the-cache-stamps")
 		case "advance":
 			clock.Advance(7)
 			if c.ExpiryS > 0 {
@@ -318,6 +326,25 @@ func runC13Hist(t *testing.T, c CacheHistCase) (*h.Violation, h.Info) {
 			if lastKind == "lookup" || lastKind == "read" || lastKind == "watch" {
 				sawRestartAfterLookup = true
 			}
+			if _, lerr := error(nil), error(nil); o.AfterClose && known[o.Name] == nil {
+				wc := cache.NumWriteCalls()
+				if _, lerr = st.LookupSecret(context.Background(), o.Name); lerr != nil {
+					info.Class("lookup-after-close-refused") // (a store may decline to work after Close: then nothing was installed)
+				}
+				if lerr == nil {
+					v, _, _ := svc.Active(o.Name)
+					known[o.Name] = &c13model{ver: v, last: clock.Unix()}
+					info.Class("lookup-after-close")
+					if cache.NumWriteCalls() == wc {
+						return h.V("written-after-lookup", "step %d: after Close the program looked the new secret %q up (the store installed and serves it); the cache was not written", i, o.Name), info
+					}
+					if !faulty {
+						if v := verify(i, "lookup after close"); v != nil {
+							return v, info
+						}
+					}
+				}
+			}
 			// what the next process knows is what the last successful write holds
 			data := cache.Data()
 			if c.FailRead || len(data) == 0 {
@@ -361,12 +388,15 @@ func runC13Hist(t *testing.T, c CacheHistCase) (*h.Violation, h.Info) {
 
 var c13hist = &h.Campaign[CacheHistCase]{
 	Prop: "C13", Sub: "history",
-	Rule: "rapid: store histories (initial fetch, lookups, service changes + polls through the store's own poller, reads, clock advances, Close + restart from the cache) with a recording cache; every document written is decoded strictly, compared with the model (every known secret, latest version/bytes, current last-access stamp), fed to a second store whose service is unreachable and to NewFileClient; writes are demanded at initial fetch, after an installing poll, after a lookup and when the poller stops; in a quarter of the cases Cache.Read or generated Cache.Write calls fail and the store must keep serving; non-trivial = a restart that follows a lookup/read, or injected cache faults; distinct by scenario",
+	Rule:  "rapid: store histories (initial fetch, lookups, service changes + polls through the store's own poller, reads, clock advances, Close + restart from the cache) with a recording cache; every document written is decoded strictly, compared with the model (every known secret, latest version/bytes, current last-access stamp), fed to a second store whose service is unreachable and to NewFileClient; writes are demanded at initial fetch, after an installing poll, after a lookup and when the poller stops; in a quarter of the cases Cache.Read or generated Cache.Write calls fail and the store must keep serving; non-trivial = a restart that follows a lookup/read, or injected cache faults; distinct by scenario",
 	Quick: 1500, Thorough: 400000,
 	Gen: func(rt *rapid.T) CacheHistCase {
 		c := CacheHistCase{Declared: rapid.SampledFrom([][]string{{"d1"}, {"d1", "d2"}, {"d1", "empty"}}).Draw(rt, "declared")}
 		c.Ops = rapid.SliceOfN(rapid.Custom(func(rt *rapid.T) COp {
-			o := COp{Kind: rapid.SampledFrom([]string{"lookup", "lookup", "watch", "set", "set", "poll", "poll", "read", "advance", "restart"}).Draw(rt, "kind"), Name: rapid.SampledFrom(c13Names).Draw(rt, "name")}
+			o := COp{Kind: rapid.SampledFrom([]string{"lookup", "lookup", "watch", "set", "set", "poll", "poll", "read", "advance", "clockback", "restart"}).Draw(rt, "kind"), Name: rapid.SampledFrom(c13Names).Draw(rt, "name")}
+			if o.Kind == "restart" {
+				o.AfterClose = rapid.IntRange(0, 3).Draw(rt, "afterclose") == 0
+			}
 			if o.Kind == "restart" && rapid.IntRange(0, 2).Draw(rt, "redeclare") == 0 {
 				o.Redeclare = rapid.SampledFrom([][]string{{"d1"}, {"d2"}, {"d1", "d2"}, {"d2", "u1"}, {"u2"}}).Draw(rt, "newdecl")
 			}
@@ -421,7 +451,8 @@ var entryTemplates = []entryT{
 	{`{"secret":{"Value":"Y2FjaGVk","Version":-1},"lastAccess":"1"}`, "malformed"},
 	{`{"secret":{"Value":"Y2FjaGVk","Version":4294967296},"lastAccess":"1"}`, "malformed"},
 	{`{"secret":{"Value":"Y2FjaGVk","Version":1.5},"lastAccess":"1"}`, "malformed"},
-	{`{"secret":{"Value":"Y2FjaGVk","Version":4},"lastAccess":17}`, "malformed"},
+	// (a stamp spelled as a JSON number instead of the documented decimal string: a reader may take it)
+	{`{"secret":{"Value":"Y2FjaGVk","Version":4},"lastAccess":17}`, "grey"},
 	{`{"secret":{"Value":"Y2FjaGVk","Version":4},"lastAccess":"soon"}`, "malformed"},
 	{`{"secret":{"Value":"Y2FjaGVk","Version":4},"lastAccess":["1"]}`, "malformed"},
 }
@@ -638,7 +669,7 @@ func runC13Doc(t *testing.T, d DocCase) (*h.Violation, h.Info) {
 
 var c13doc = &h.Campaign[DocCase]{
 	Prop: "C13", Sub: "documents",
-	Rule: "rapid: cache contents built as a top-level object of 0-4 entries over keys {a,b (declared), u,v (undeclared), \"\"} (duplicates possible), each entry drawn from 33 templates labelled valid / grey (extra, duplicate, case-variant or missing optional fields - either outcome allowed) / malformed (null or non-object entry, missing or null secret, wrong JSON types, bad base64, out-of-range version, non-numeric stamp), or a non-object top level (null, array, string, number, garbage), optionally with trailing bytes or cut to a proper prefix; oracle: never a panic or failed start; values come from the service or from a cache entry; all-or-nothing; malformed => ignored as a whole; valid => used; non-trivial = a malformed document on which JSON unmarshalling succeeds, a prefix, or a non-empty valid document; distinct by rendered bytes",
+	Rule:  "rapid: cache contents built as a top-level object of 0-4 entries over keys {a,b (declared), u,v (undeclared), \"\"} (duplicates possible), each entry drawn from 33 templates labelled valid / grey (extra, duplicate, case-variant or missing optional fields - either outcome allowed) / malformed (null or non-object entry, missing or null secret, wrong JSON types, bad base64, out-of-range version, non-numeric stamp), or a non-object top level (null, array, string, number, garbage), optionally with trailing bytes or cut to a proper prefix; oracle: never a panic or failed start; values come from the service or from a cache entry; all-or-nothing; malformed => ignored as a whole; valid => used; non-trivial = a malformed document on which JSON unmarshalling succeeds, a prefix, or a non-empty valid document; distinct by rendered bytes",
 	Quick: 6000, Thorough: 3000000,
 	Gen: func(rt *rapid.T) DocCase {
 		d := DocCase{Top: rapid.SampledFrom([]string{"object", "object", "object", "object", "object", "object", "object", "object", "null", "array", "string", "number", "empty", "garbage"}).Draw(rt, "top")}
